@@ -248,10 +248,11 @@ class SqlalchemyRender:
                 t.op == '-'
                 and isinstance(t.args[0], ast.Constant)
                 and isinstance(t.args[0].value, (int, float))
-                and t.args[0].value < 0
+                and str(t.args[0].value).startswith('-')
             ):
-                # "- -1" must not be rendered as "--1" (a comment)
-                arg = sa.sql.elements.Grouping(arg)
+                # "- -1" must not be rendered as "--1" (a comment); -0.0 is not < 0 but is written with a sign.
+                # The literal is grouped, not the label a constant of the select list carries: "(-1 AS x)" is no SQL
+                arg = sa.sql.elements.Grouping(arg.element if isinstance(arg, sa.sql.elements.Label) else arg)
 
             method = opmap[t.op.upper()]
             col = getattr(arg, method)()
